@@ -87,10 +87,10 @@ CHECKS["C01"] = {
         "quick": [{"pkg": "internal/pfcp", "entries": ["ZZ_C01_*"], "witnesses": 3, "max_paths": 400000, "budget_s": 600}],
         "thorough": [{"pkg": "internal/pfcp", "entries": ["ZZ_C01_*"], "witnesses": 6, "max_paths": 5000000, "budget_s": 3000}],
     },
-    "covers": {"all": ["ZZ_C01_OwnNodeID:C01.own-nodeid.done", "ZZ_C01_FAR:C01.hist.done", "ZZ_C01_FAR:C01.est.done", "ZZ_C01_FAR:C01.mod.done", "ZZ_C01_FAR:C01.del.done",
+    "covers": {"all": ["ZZ_C01_OwnNodeID:C01.own-nodeid.done", "ZZ_C01_URRRecreated:C01.urr-recreated.done", "ZZ_C01_URRRecreated:C01.urr-recreated.recreated", "ZZ_C01_FAR:C01.hist.done", "ZZ_C01_FAR:C01.est.done", "ZZ_C01_FAR:C01.mod.done", "ZZ_C01_FAR:C01.del.done",
                        "ZZ_C01_FAR:C01.assoc.ended-session", "ZZ_C01_FAR:C01.reportrsp.done", "ZZ_C01_URR:C01.hist.done", "ZZ_C01_PDR:C01.hist.done", "ZZ_C01_PDRURR:C01.hist.done", "ZZ_C01_PDRURR:C01.del.done"]},
     "bounds": {
-        "quick": "histories of 3 steps after an association, per rule kind (FAR, QER, BAR, URR, PDR): each step one of Association Setup (2 nodes; node A from its usual or from another source address), Establishment (0..2 Create IEs), Modification (one Create/Update/Remove/Query IE), Deletion, Session Report Response (SEID 0 or not); rule ids from {1,2} or unconstrained; one symbolic fault per create/update/query data-plane call; plus one fixed history: Establishment, 1..2 Modifications that carry the owner's OWN Node ID, re-association",
+        "quick": "histories of 3 steps after an association, per rule kind (FAR, QER, BAR, URR, PDR): each step one of Association Setup (2 nodes; node A from its usual or from another source address), Establishment (0..2 Create IEs), Modification (one Create/Update/Remove/Query IE), Deletion, Session Report Response (SEID 0 or not); rule ids from {1,2} or unconstrained; one symbolic fault per create/update/query data-plane call; plus one fixed history: Establishment, 1..2 Modifications that carry the owner's OWN Node ID, re-association; plus one URR id queried / removed / created again over 3 requests with a data plane that answers a query or removal with 0 or 1 usage report, the session then ended by Deletion, re-association or a SEID-0 report response (every rule withdrawn)",
         "thorough": "same with 4 steps",
     },
     "outside": "longer histories; more than 2 addressed sessions; several rule kinds mixed in one history (each kind is a separate shard); remove failures (excluded by the property's fault model)",
